@@ -64,11 +64,12 @@ def run_script(args):
                 mark = len(s.lines)
                 nb = s.counts["bestmove"]
                 s.send("position fen " + fen)
-                s.send("go depth 3")
+                # depth-limited and clock-limited searches alternate (the overhead option only acts on clocks)
+                s.send(["go depth 3", "go wtime 300 btime 300", "go depth 2", "go wtime 40 btime 40 movestogo 1"][(idx + k) % 4])
                 ok = s.wait_count("bestmove", nb + 1, 60)
                 lines = [l for _, l in s.lines[mark:]]
                 ev = dict(fen2pos(fen))
-                ev.update({"lim": 3, "tag": "%s#%d" % (prof, idx), "infos": parse_infos(lines), "msg": "",
+                ev.update({"lim": 0, "tag": "%s#%d" % (prof, idx), "infos": parse_infos(lines), "msg": "",
                            "untouched": True, "stopk": 0, "polls": 0, "nodes_at_stop": 0, "max_nodes": 0})
                 if ok:
                     ev.update({"out": "move", "best": [l.split()[1] for l in lines if l.startswith("bestmove")][0]})
